@@ -82,6 +82,40 @@ SEEDS = (
     "let a 1\nregister q[3]\nmap b q[1:]\ng b[0] a\n",
 )
 
+# long-run family: lexer patterns whose alternatives overlap backtrack exponentially on a long run of layout
+# characters in front of a place where the pattern finally fails (an unterminated comment, an illegal character).
+# Such a hang sits inside the regular-expression engine, out of reach of the step meter, so these texts are parsed in
+# a child process under a wall-clock limit that is >= 100 x the normal time (the only use of wall-clock time here).
+LONG_RUNS = (" " * 64, "\t" * 64, " \t" * 40, " " * 300, "\n" * 64, " \n" * 40, "*" * 64, "/" * 64, "* " * 40, "a " * 40, "0" * 64, "." * 64)
+LONG_FRAMES = (
+    ("unterminated-block", REG + "/*{R}"),
+    ("unterminated-block-then-text", REG + "/* c{R}g q[0]\n"),
+    ("terminated-block", REG + "/*{R}*/ g q[0]\n"),
+    ("line-comment", REG + "//{R}\ng q[0]\n"),
+    ("before-illegal", REG + "g q[0]{R}$\n"),
+    ("before-eof-in-block", REG + "{{ g q[0]{R}"),
+    ("slash-star-slash", REG + "/*{R}/"),
+)
+LONG_LIMIT = 60.0
+_LONG_CHILD = (
+    "import sys, json; sys.path.insert(0, sys.argv[1]);\n"
+    "from jaqalpaq.parser import parse_jaqal_string\n"
+    "from jaqalpaq.error import JaqalError\n"
+    "text = sys.stdin.read()\n"
+    "try:\n"
+    "    parse_jaqal_string(text, autoload_pulses=False); out = {'ok': True}\n"
+    "except JaqalError as e:\n"
+    "    out = {'exc': 'JaqalError', 'type': type(e).__name__}\n"
+    "except BaseException as e:\n"
+    "    out = {'exc': type(e).__name__, 'msg': str(e)[:200]}\n"
+    "print(json.dumps(out))\n"
+)
+
+
+def long_text(frame, run):
+    return dict(LONG_FRAMES)[frame].replace("{R}", LONG_RUNS[run])
+
+
 # module-name family: `from <name> usepulses *` for every name over these characters that is one token
 MODCHARS = ".av1_"
 FIXTURE_NAMES = ("vpulses", ".vpulses", "nopulses", ".nopulses", "vpulses.x", ".vpulses.x")
@@ -672,6 +706,9 @@ class C16(Check):
         "(route, history prefix, outcomes) observations, transitions = calls executed"
     )
     assumptions = (
+        "long-run family (7 frames x 12 runs of 64-300 layout or punctuation characters): a hang inside the regular-expression "
+        "engine cannot be seen by the step meter, so each of these texts is parsed in a child process under a 60 s wall-clock limit "
+        "(normal time < 1 s); this is the only place where wall-clock time decides a verdict",
         "weak reading of 'position of the offending token': JaqalParseError has line and column; when they are "
         "integers the line is in 1..lines+1 and the column in 1..len(line)+1; a non-integer line (None or a "
         "string such as 'EOF') is accepted as an end-of-input marker; exactness of positions is C02's business",
@@ -755,6 +792,8 @@ class C16(Check):
         for tname, _t in OVR_TEMPLATES:
             for vkey, _v in OVR_VALUES:
                 yield ("ovr", tname, vkey)
+        for fname, _f in LONG_FRAMES:
+            yield ("long", fname, -1)  # every run of the frame, stopping at the first one that does not return
         ma = 0 if q else 1
         for sid, seed in enumerate(SEEDS):
             for pos in range(len(seed) + 1):
@@ -781,7 +820,7 @@ class C16(Check):
     def selfcheck(self):
         assert set(drv.ALPHABET + drv.EXTRA) == set(drv.CALLS)
         for name, (ep, _text) in drv.CALLS.items():
-            assert ep in ("parse", "auto", "autoinj", "header", "sexpr", "emulate", "runstr"), name
+            assert ep in ("parse", "auto", "autoinj", "header", "sexpr", "emulate", "emushared", "runstr"), name
         # the module-name family must not name anything that really exists besides the fixture package
         names = list(module_names(4))
         assert "." in names and ".a" in names and "a.1" in names and "_" in names
@@ -814,6 +853,11 @@ class C16(Check):
             return {"seed": SEEDS[sid], "position": pos, "alphabet": len(ALPHABETS[aid])}
         if k == "mod":
             return {"module_name": case[1]}
+        if k == "long" and case[2] < 0:
+            return {"frame": dict(LONG_FRAMES)[case[1]], "run": "each of %d long runs" % len(LONG_RUNS)}
+        if k == "long":
+            r = LONG_RUNS[case[2]]
+            return {"frame": dict(LONG_FRAMES)[case[1]], "run": "%r x %d" % (r[: len(r) // (len(r) // max(1, len(set(r))) or 1)][:2], len(r))}
         if k == "num":
             lit = NUM_LITERALS[case[2]]
             return {"position": case[1], "literal": lit if len(lit) < 60 else "%d digits" % len(lit)}
@@ -855,6 +899,42 @@ class C16(Check):
                 chunk //= 2
 
     # ---- execution
+    _LONG_SEEN = {}  # text -> True once it has timed out in this process (a 60 s wait is not repeated to confirm it)
+
+    def _run_long(self, case, ctx):
+        if case[2] < 0:
+            for ri in range(len(LONG_RUNS)):
+                before = len(ctx.failures)
+                self._run_long(("long", case[1], ri), ctx)
+                if len(ctx.failures) > before:
+                    break
+            return
+        text = long_text(case[1], case[2])
+        ctx.trace()
+        ctx.state(("long", case[1], case[2]))
+        try:
+            if self._LONG_SEEN.get(text):
+                raise subprocess.TimeoutExpired("child", LONG_LIMIT)
+            p = subprocess.run([sys.executable, "-c", _LONG_CHILD, os.path.join(os.environ.get("VERIF_REPO", "/repo"), "src")],
+                               input=text, capture_output=True, text=True, timeout=LONG_LIMIT)
+        except subprocess.TimeoutExpired:
+            self._LONG_SEEN[text] = True
+            ctx.outcome("long:TIMEOUT")
+            ctx.fail("non-termination:wall-clock", "parse_jaqal_string did not return within %.0f s on a %d-character text "
+                     "(a text of this shape normally takes well under a second)" % (LONG_LIMIT, len(text)), case=("long", case[1], case[2]))
+            return
+        try:
+            out = json.loads(p.stdout.strip().splitlines()[-1])
+        except Exception:  # noqa: BLE001
+            raise RuntimeError("long-run child gave no outcome: %r %r" % (p.stdout[-300:], p.stderr[-300:]))
+        if "ok" in out:
+            ctx.outcome("long:accepted")
+        elif out["exc"] == "JaqalError":
+            ctx.outcome("long:" + out["type"])
+        else:
+            ctx.outcome("long:ESCAPE")
+            ctx.fail("escape-" + out["exc"], "%s escaped from parse of a %d-character text: %s" % (out["exc"], len(text), out.get("msg")))
+
     def run_case(self, case, ctx):
         k = case[0]
         if k == "text":
@@ -868,6 +948,8 @@ class C16(Check):
         elif k == "mut":
             _k, sid, aid, pos = case
             judge_texts(self._mutants(SEEDS[sid], ALPHABETS[aid], pos), ctx, "seed")
+        elif k == "long":
+            self._run_long(case, ctx)
         elif k == "mod":
             use = "from %s usepulses *\n" % case[1]
             judge_texts((use, use + "register q[1]\n"), ctx, "mod")
